@@ -161,7 +161,7 @@ class RealA:
                 mop = 'store ' + hex8(0)
             else:
                 o, refs = int(t[1], 16), []
-                mop = '%s %s' % (c, t[1])
+                mop = '%s %s' % (c, t[1])           # (the model's store does not look at the serial)
             data = pickle_refs(self.k, refs)
             try:
                 if c == 'restore':
@@ -169,7 +169,10 @@ class RealA:
                     prev = self.cur.get(o) if (o in self.cur and (self.k + o) % 2) else None
                     s.restore(p64(o), self.tid, data, '', prev, self.txn)
                 else:
-                    s.store(p64(o), self.cur.get(o, z64), data, '', self.txn)
+                    # (a storage accepts any serial for an oid it has no record of: 'ns' passes a non-null one,
+                    # as DemoStorage does when it copies a base object into its changes)
+                    ser = self.cur.get(o, tid_of(1) if t[2:] == ['ns'] else z64)
+                    s.store(p64(o), ser, data, '', self.txn)
                 self.staged[o] = self.tid
                 return 'ok', mop
             except Exception as e:
@@ -434,7 +437,7 @@ def gen_a(rng, kind):
                             rng.randrange(1, 600), rng.choice(known)])
             o = min(max(o, 1), TOP)
             c = 'restore' if (kind == 'file' and rng.random() < 0.4) else 'store'
-            ops.append('%s %s' % (c, hex8(o)))
+            ops.append('%s %s%s' % (c, hex8(o), ' ns' if (c == 'store' and rng.random() < 0.35) else ''))
             known.append(o)
             st['staged'].add(o)
         elif r < 0.70:
@@ -516,6 +519,13 @@ def gen_a(rng, kind):
             ops += ['store %s' % hex8(a), 'finish', 'storeroot %s' % hex8(a), 'finish', 'store %s' % hex8(a), 'finish',
                     'mark', 'store %s' % hex8(hi), 'finish', 'undolast', 'finish', 'pack mark',
                     'store %s' % hex8(a), 'finish', 'reopen' + rng.choice(['', '', ' stale', ' noindex']), 'newoid']
+    if kind == 'file' and rng.random() < 0.2:
+        # a saved index that is BEHIND the file: the tail scanned on open only rewrites small oids while larger
+        # ones exist
+        finish()
+        small = [hex8(x) for x in range(1, 7)]
+        ops += ['store %s' % x for x in small] + ['finish', 'reopen', 'store %s' % small[0], 'finish',
+                                                   'store %s' % small[1], 'finish', 'reopen stale', 'newoid']
     ops += ['newoid', 'newoid']
     return ops
 
@@ -636,13 +646,21 @@ def run_demo_case(rng, tmp, idx):
     txn = None
     staged = set()
     collided = False
+    sib_issued = set()
     try:
         for _ in range(rng.choice([8, 16, 30])):
             top = stack[-1]
             r = rng.random()
             if rng.random() < 0.2:
                 try:
+                    sib_before = present_oids(sibling)
                     so = sibling.new_oid()
+                    if u64(so) in sib_before or u64(so) in sib_issued:
+                        bad = ('DemoStorage.new_oid (second storage of the process) returned %d, %s' % (
+                            u64(so), 'already issued' if u64(so) in sib_issued else
+                            'which has a record in one of its layers'))
+                        break
+                    sib_issued.add(u64(so))
                     if rng.random() < 0.5:
                         st_ = TransactionMetaData()
                         sibling.tpc_begin(st_)
@@ -692,6 +710,12 @@ def run_demo_case(rng, tmp, idx):
                     txn = TransactionMetaData()
                     top.tpc_begin(txn, nexttid())
                     staged = set()
+                if rng.random() < 0.4:
+                    bo = rng.choice(base_oids)
+                    if bo not in staged:
+                        top.store(p64(bo), top.load(p64(bo))[1], pickle_refs(bo, []), '', txn)
+                        staged.add(bo)
+                        log.append('modify base object %d' % bo)
                 cand = sorted(issued[id(top)] - present_oids(top) - staged)
                 if cand:
                     o = rng.choice(cand)
@@ -718,6 +742,25 @@ def run_demo_case(rng, tmp, idx):
                 elif len(stack) > 1:
                     stack.pop().pop()
                     log.append('pop')
+        if not bad and txn is None:
+            # the changes storage's OWN allocator (records were stored into it under ids it never issued)
+            ch = stack[0].changes
+            try:
+                chp = present_oids(ch)
+                for _ in range(3):
+                    o = u64(ch.new_oid())
+                    if o in chp:
+                        bad = ('the changes storage of the demo storage (%s) handed out id %d, which has a record in it '
+                               '(stored through the demo storage with the base object\'s serial)' % (
+                                   type(ch).__name__, o))
+                        break
+            except (struct.error, ValueError, OverflowError):
+                pass                  # counter at the top of the oid space
+    except InfraError:
+        raise
+    except Exception as e:
+        import traceback
+        bad = bad or 'the DemoStorage history raised %s: %s' % (type(e).__name__, traceback.format_exc()[-700:])
     finally:
         for s in reversed(stack + [sibling]):
             try:
